@@ -694,13 +694,49 @@ def int_spelling_case():
   return res
 
 
+def wide_geometry_case():
+  """Concrete side layer: spline windows far out (cut-off smoothing) - the linear systems are badly conditioned there
+  (1e9..1e12); LAPACK's solve still meets the join conditions to 1e-7, a rank-truncating least-squares solver does not."""
+  res = new_result("join conditions for spline windows at 3..9 Angstrom (concrete)")
+  from atsim.potentials import potentialforms as pfm
+  from atsim.potentials.spline import Buck4_SplinePotential, SplinePotential
+  bad = []
+
+  def rel(x, y):
+    return abs(x - y) <= 1e-4 * abs(y) + 1e-9
+  S, E = pfm.buck(1000.0, 0.3, 0.0), pfm.buck(900.0, 0.4, 0.0)
+  for d, a in ((6.0, 6.5), (8.0, 9.0), (4.8, 5.3)):
+    it = SplinePotential(S, E, d, a).interpolationFunction
+    for nm, f, x in (("detach", S, d), ("attach", E, a)):
+      for what, g, w_ in (("value", it(x), f(x)), ("slope", it.deriv(x), f.deriv(x)), ("curvature", it.deriv2(x), f.deriv2(x))):
+        if not rel(g, w_):
+          bad.append("exp_spline %r..%r: %s at %s is %r, the end potential's %r" % (d, a, what, nm, g, w_))
+    res["paths"] += 1
+    res["replays"] += 1
+  S4, E4 = pfm.buck(1000.0, 0.3, 0.0), pfm.buck(0.0, 1.0, 30.0)
+  for d, m, a in ((5.0, 5.5, 6.0), (4.6, 5.1, 5.6), (3.1, 3.35, 3.6)):
+    it = Buck4_SplinePotential(S4, E4, d, a, m).interpolationFunction
+    for nm, f, x in (("detach", S4, d), ("attach", E4, a)):
+      for what, g, w_ in (("value", it(x), f(x)), ("slope", it.deriv(x), f.deriv(x)), ("curvature", it.deriv2(x), f.deriv2(x))):
+        if not rel(g, w_):
+          bad.append("buck4_spline %r/%r/%r: %s at %s is %r, the end potential's %r" % (d, m, a, what, nm, g, w_))
+    s5, s3 = it.spline5, it.spline3
+    if not rel(s5(m), s3(m)) or abs(s5.deriv(m)) > 1e-6 or not rel(s5.deriv2(m), s3.deriv2(m)):
+      bad.append("buck4_spline %r/%r/%r: at r_min values %r / %r, slope %r, curvatures %r / %r" % (d, m, a, s5(m), s3(m), s5.deriv(m), s5.deriv2(m), s3.deriv2(m)))
+    res["paths"] += 1
+    res["replays"] += 1
+  for b in bad[:3]:
+    res["violations"].append(dict(key="wide-geometry-join", desc=b))
+  return res
+
+
 def cases(tier, seed=0):
   TT, FF, TF = (True, True), (False, False), (True, False)
   cs = [Case("exp TT/TT", exp_case, avS=TT, avE=TT), Case("exp FF/FF", exp_case, avS=FF, avE=FF),
         Case("buck4 TT/TT", buck4_case, avS=TT, avE=TT), Case("buck4 FF/FF", buck4_case, avS=FF, avE=FF),
         Case("buck4 TT/TT history", buck4_case, avS=TT, avE=TT, history=True),
         Case("exp TT/TT history", exp_case, avS=TT, avE=TT, history=True),
-        Case("integer spellings", int_spelling_case),
+        Case("integer spellings", int_spelling_case), Case("wide geometry", wide_geometry_case),
         Case("equiv buck4", equiv_buck4_case), Case("equiv exp >= >=", equiv_exp_case, markers=(">=", ">="))]
   if tier == "thorough":
     for (x, y) in ((TT, FF), (FF, TT), (TF, TF), (TF, TT)):
